@@ -21,6 +21,7 @@ func TestMain(m *testing.M) {
 		evid.Spec{Name: "TestExhaustivePairs", Kind: "plain", QuickShards: 16, ThoroughShards: 16, TimeoutS: 3000},
 		evid.Spec{Name: "TestPropLCSRandom", Kind: "rapid", Quick: 24000, Thorough: 800000, QuickShards: 8, ThoroughShards: 16},
 		evid.Spec{Name: "TestPropD1Random", Kind: "rapid", Quick: 24000, Thorough: 800000, QuickShards: 4, ThoroughShards: 16},
+		evid.Spec{Name: "FuzzLCS", Kind: "fuzz", Thorough: 90, ThoroughOnly: true, QuickShards: 1, ThoroughShards: 1},
 		evid.Spec{Name: "TestPropBufferReuse", Kind: "rapid", Quick: 4000, Thorough: 100000, QuickShards: 4, ThoroughShards: 16},
 	)
 	evid.Note("rule", "exhaustive: every ordered pair of strings over {a,c,g,t} up to length 4 (quick) / 5 (thorough), empty string included, x bounds -1..3, for FastLCSScore, FastLCSEGFScore and D1Or0; random: pairs up to 300 nt with IUPAC codes built by mutation so that the true number of differences lies within +-2 of the bound; buffer-reuse: generated call sequences sharing one scratch buffer. Oracle: independent full-matrix DP (LCS with shortest-alignment tie-break, IUPAC table written from the documentation; Levenshtein). Non-trivial = the two lengths differ and the true difference is within +-1 of the bound (lcs checks) / edit distance 1 or 2 (one-difference checks). Distinct = hash of (check, a, b, bound).")
